@@ -19,7 +19,7 @@ func verifGradient2State() (l *Gradient2Limit, hi int, window int) {
 	maxC := verif.Int("max")
 	verif.Assume(minL >= 1 && minL <= initial && minL <= maxC)
 	verif.Assume(initial < 1<<31 && maxC < 1<<31 && maxC >= 4)
-	smoothing := verifSmoothings[verif.Choice("smoothing", verif.Tiered(2, len(verifSmoothings)))]
+	smoothing := verifSmoothings[verif.Choice("smoothing", verif.Tiered(verifQuickSmooth, len(verifSmoothings)))]
 	window = verifLongWindows[verif.Choice("longWindow", verif.Tiered(1, len(verifLongWindows)))]
 	l, err := NewGradient2Limit("g2", initial, maxC, minL, nil, smoothing, window, nil, nil)
 	verif.Assert("gradient2-constructor-ok", err == nil && l != nil)
